@@ -402,3 +402,31 @@ CHECKS["C14"] = NS(
         "thorough": [("weight", 10, {"every": 1}), ("quantizers", 2, {}), ("group", 4, {"max_inf": 8192})],
     },
 )
+
+CHECKS["C15"] = NS(
+    MODULE="c15_awq",
+    LEVEL="exploration",
+    PYTHON_FLAGS=("-O",),
+    LEVEL_TEXT=(
+        "Runs the CUDA-only AWQ code on CPU under python -O (asserts compiled out). layout: for every admissible shape up to a bound the "
+        "position permutation of the v1 (with and without reordering) and v2 packings is recovered completely by packing the base-16 "
+        "digit matrices of the position index, and must be a bijection; unpack(pack(t)) == t for those matrices in four layouts "
+        "(contiguous, transposed view, column slice, row slice); payloads are bit-identical to the reference packers under external/awq. "
+        "random: Hypothesis-drawn matrices (value independence). equiv: float16 group-128 weights from the row-class generator in the "
+        "AWQ-optimised and the standard representation: dequantized values within one float16 rounding per term, conversion back "
+        "(qbits_tensor and the state_dict path) restores codes, scales and zero-points bitwise. Exploration with a per-shape complete "
+        "characterisation of the layout."
+    ),
+    LEVEL_NOTE="packing only moves nibbles, so the recovered permutation characterises the function for that shape; the CUDA gemm/gemv kernels and real cuda->cpu moves are out of reach",
+    TECHNIQUE=PBT + "complete per-shape recovery of the layout permutation (bijection), differential against the reference packer, round-trip and float16 error-bound oracles",
+    RULE=(
+        "layout: N multiple of 4 up to maxN, K multiple of 64 (v2) / 8 (v1) up to maxK, x layouts; random / equiv: Hypothesis. Non-trivial: shapes "
+        "other than the suite's square 128-1024 ones or a non-contiguous layout; weights with a non-zero zero-point in every group. Distinct by "
+        "(packing, reorder, N, K, layout) / (shape, class vector, input form)."
+    ),
+    ASSUMPTIONS=["no CUDA device: QBitsTensor.create's device test and the gemm kernels are not exercised", "python -O is what makes the asserts on the device type inert; no source hook"],
+    PLAN={
+        "quick": [("layout", 8, {"maxN": 32, "maxK": 512}), ("random", 3, {"n": 300}), ("equiv", 5, {"n": 150})],
+        "thorough": [("layout", 12, {"maxN": 128, "maxK": 2048}), ("random", 2, {"n": 8000}), ("equiv", 4, {"n": 5000})],
+    },
+)
